@@ -129,6 +129,21 @@ def attacks(sc, bypass_hdr):
         A.append(("batch-delete-version", lambda c: c.req("POST", "/" + bk, query={"delete": ""}, headers=bh,
                   body=("<Delete><Object><Key>%s</Key><VersionId>%s</VersionId></Object></Delete>" % (key, vid)).encode())))
     A.append(("batch-delete", lambda c: c.req("POST", "/" + bk, query={"delete": ""}, headers=bh, body=("<Delete><Object><Key>%s</Key></Object><Object><Key>other</Key></Object></Delete>" % key).encode())))
+    # the key spelled with a trailing "/" names another (absent) key, not this object
+    A.append(("delete-with-trailing-slash", lambda c: c.req("DELETE", path + "/", headers=bh)))
+    A.append(("batch-delete-with-trailing-slash", lambda c: c.req("POST", "/" + bk, query={"delete": ""}, headers=bh, body=("<Delete><Object><Key>%s/</Key></Object></Delete>" % key).encode())))
+    if vid:
+        # one batch naming the key twice: an entry that may be deleted first (the key without a version: a delete marker; or a fresh,
+        # unprotected version), the protected version second
+        A.append(("batch-delete-marker-then-version", lambda c: c.req("POST", "/" + bk, query={"delete": ""}, headers=bh,
+                  body=("<Delete><Object><Key>%s</Key></Object><Object><Key>%s</Key><VersionId>%s</VersionId></Object></Delete>" % (key, key, vid)).encode())))
+        def batch_two_versions(c):
+            r0 = c.req("PUT", path, body=OTHER)
+            v2 = r0.headers.get("x-amz-version-id", "")
+            if r0.status != 200 or not v2: return r0
+            return c.req("POST", "/" + bk, query={"delete": ""}, headers=bh,
+                         body=("<Delete><Object><Key>%s</Key><VersionId>%s</VersionId></Object><Object><Key>%s</Key><VersionId>%s</VersionId></Object></Delete>" % (key, v2, key, vid)).encode())
+        A.append(("batch-delete-fresh-version-then-protected", batch_two_versions))
     A.append(("delete-bucket", lambda c: c.req("DELETE", "/" + bk)))
     vq = {"versionId": vid} if vid else {}
     A.append(("retention-shorten", lambda c: c.req("PUT", path, query=dict(vq, retention=""), headers=bh, body=("<Retention><Mode>GOVERNANCE</Mode><RetainUntilDate>%s</RetainUntilDate></Retention>" % soon).encode())))
